@@ -202,3 +202,74 @@ Qed.
 (** non-contiguous wildcards are refused *)
 Theorem collapse_refuses l : l <> [] -> existsb addr_is_nc l = true -> collapse_addrs l = TErr.
 Proof. intros NE H. unfold collapse_addrs. destruct l; [congruence|]. now rewrite H. Qed.
+
+(** * termination: the fuel of [collapse_nets] is never exhausted (strict inputs)
+    Each iteration drops the popped network, or replaces it by its supernet (one bit shorter),
+    or moves it to the result: the sum of (length + 1) over the work list decreases - except for
+    one step: a popped 0.0.0.0/0 whose two halves are in the list is put back at the front.
+    The potential 2 * sum - [the front element is a /0] decreases in every step. *)
+Definition zfront (work : list net) : nat :=
+  match work with n :: _ => if Nat.eqb (snd n) 0 then 1%nat else 0%nat | [] => 0%nat end.
+
+Lemma work_measure_app a b : work_measure (a ++ b) = (work_measure a + work_measure b)%nat.
+Proof. unfold work_measure. induction a as [|x a IH]; cbn [app fold_right]; [reflexivity|]. rewrite IH. lia. Qed.
+
+Lemma zfront_le1 l : (zfront l <= 1)%nat.
+Proof. destruct l as [|n t]; cbn; [lia|]. destruct (Nat.eqb (snd n) 0); lia. Qed.
+
+Lemma zfront_pos_measure l : (zfront l <= work_measure l)%nat.
+Proof. destruct l as [|n t]; cbn; [lia|]. destruct (Nat.eqb (snd n) 0); lia. Qed.
+
+Lemma strict_len0 n : strict_net n -> snd n = 0%nat -> n = (0, 0%nat).
+Proof.
+  destruct n as [p len]. intros (_ & P & Z) E. cbn in E. subst len. f_equal.
+  apply N.bits_inj_0. intros i. destruct (N.lt_ge_cases i 32) as [Hi|Hi].
+  - specialize (Z (N.to_nat i)). unfold tb in Z. rewrite N2Nat.id in Z. apply Z. cbn [snd]. lia.
+  - destruct (N.eq_dec p 0) as [->|Hp]; [apply N.bits_0|].
+    apply N.bits_above_log2. apply N.log2_lt_pow2; [lia|]. eapply N.lt_le_trans; [exact P|].
+    apply N.pow_le_mono_r; lia.
+Qed.
+
+Lemma collapse_loop_terminates : forall fuel work acc,
+  Forall strict_net work ->
+  (2 * work_measure work < fuel + zfront work)%nat ->
+  collapse_loop fuel work acc <> None.
+Proof.
+  induction fuel as [|f IH]; intros work acc SW Hm.
+  - exfalso. pose proof (zfront_pos_measure work). pose proof (zfront_le1 work). lia.
+  - cbn [collapse_loop]. destruct (rev work) as [|n rr] eqn:ER; [discriminate|].
+    apply rev_cons_inv in ER. set (rest := rev rr) in *. subst work.
+    rewrite work_measure_app in Hm. cbn [work_measure fold_right] in Hm.
+    apply Forall_app in SW as [SR SN]. inversion SN as [|? ? Sn _]; subst.
+    assert (Zw : (zfront (rest ++ [n]) <= 1)%nat) by apply zfront_le1.
+    assert (Drop : collapse_loop f rest acc <> None /\ forall acc', collapse_loop f rest acc' <> None).
+    { assert (G : forall acc', collapse_loop f rest acc' <> None).
+      { intros acc'. apply IH; [exact SR|]. pose proof (zfront_le1 rest). lia. }
+      split; auto. }
+    destruct Drop as [D1 D2].
+    destruct (existsb (net_subnet_of n) rest) eqn:Esub; [exact D1|].
+    destruct (forallb (fun h => net_mem h (n :: rest)) (halves (supernet n))) eqn:Eh; [|apply D2].
+    destruct (net_mem (supernet n) rest) eqn:Em; [exact D1|].
+    apply IH.
+    + constructor; [now apply supernet_strict|exact SR].
+    + cbn [work_measure fold_right]. destruct (snd n) as [|l] eqn:El.
+      * (* the /0 case: the list cannot be empty and cannot start with a /0 *)
+        assert (En : n = (0, 0%nat)) by (now apply strict_len0).
+        subst n. cbn [supernet snd] in *. cbn [zfront snd Nat.eqb].
+        destruct rest as [|r0 rest'].
+        -- exfalso. cbn in Eh. discriminate.
+        -- cbn [app zfront] in Hm. destruct (Nat.eqb (snd r0) 0) eqn:E0.
+           ++ exfalso. apply Nat.eqb_eq in E0. inversion SR as [|? ? Sr0 _]; subst.
+              rewrite (strict_len0 r0 Sr0 E0) in Esub. cbn in Esub. discriminate.
+           ++ unfold work_measure in *. cbn [fold_right snd] in *. lia.
+      * assert (Es : snd (supernet n) = l).
+        { unfold supernet. rewrite El. reflexivity. }
+        rewrite Es. pose proof (zfront_le1 (supernet n :: rest)). unfold work_measure in *. lia.
+Qed.
+
+Theorem collapse_terminates nets : Forall strict_net nets -> collapse_nets nets <> None.
+Proof.
+  intros HS. unfold collapse_nets.
+  destruct (collapse_loop (2 * S (work_measure nets) + 2) nets []) eqn:E; [discriminate|].
+  exfalso. revert E. apply collapse_loop_terminates; [exact HS|]. lia.
+Qed.
